@@ -108,6 +108,9 @@ impl<H: HashChain> HssPrivateKey<H> {
         let moved = core::mem::take(aux_data);
         *aux_data = &mut moved[..aux_len];
 
+        // A fresh buffer may hold arbitrary bytes, which must not be taken for cached tree nodes.
+        aux_data.iter_mut().for_each(|byte| *byte = 0);
+
         let aux_level = hss_optimal_aux_level(aux_len, *top_lms_parameter, None);
         hss_store_aux_marker(aux_data, aux_level);
 
